@@ -598,6 +598,7 @@ type checker struct {
 	v     *vcase.Verdict
 	model []okUpload
 	ids   []string // every upload ID observed, in creation order
+	stop  bool     // a known finding was matched; the rest of the scenario is not evaluated
 	deadInfo
 }
 
@@ -1103,7 +1104,7 @@ func Check(c Case) (v vcase.Verdict) {
 	}
 
 	k.faulty()
-	if v.Violation != "" {
+	if v.Violation != "" || k.stop {
 		return
 	}
 
